@@ -77,9 +77,19 @@ func c07LibScript(k int) *hx.Script {
 			av := hx.ScalarOf(r, "i32")
 			s.Ops = append(s.Ops, hx.Op{K: "attr", Path: "/dense", Name: fmt.Sprintf("attr%02d", i), Data: &av})
 		}
-		s.Ops = append(s.Ops, hx.Op{K: "densegroup", Path: "/dg", Links: map[string]string{"a": "/dense", "b": "/dense"}})
+		if k%8 == 3 {
+			s.Ops = append(s.Ops, hx.Op{K: "densegroup", Path: "/dg", Links: map[string]string{"a": "/dense", "b": "/dense"}})
+		}
+		// k%8 == 7: the dense attribute storage (heap, index leaf, index header) is the last
+		// thing in the file, so that a torn tail cuts into it while everything else is intact
 	}
 	return s
+}
+
+// C07LibSeedWrite writes library seed k to path (debugging aid).
+func C07LibSeedWrite(k int, path string) string {
+	e := hx.Run(path, c07LibScript(k))
+	return fmt.Sprintf("close=%+v ops=%d", e.CloseRes, len(e.Res))
 }
 
 // seed plan ------------------------------------------------------------------------------
